@@ -1,0 +1,17 @@
+//go:build verif
+
+// Contracts for the guard (root) actor (property C03). Comment-only: compiled under the build tag `verif` and
+// read by /verif/engine (govc).
+
+package guard
+
+// the dead-letter office: every DeathLetterEvent the root receives is published on the event stream exactly once;
+// nothing else is published by the guard
+//@ func (*Actor).OnReceive
+//@   requires ctx != nil
+//@   requires typeis(actxMessage(ctx), "*vivid.OnKilled") ==> !nilptr(actxMessage(ctx)) && unboxed(actxMessage(ctx), "*vivid.OnKilled").Ref != nil &&
+//@            (typeis(unboxed(actxMessage(ctx), "*vivid.OnKilled").Ref, "*actor.Ref") ==> !nilptr(unboxed(actxMessage(ctx), "*vivid.OnKilled").Ref))
+//@   requires typeis(actxMessage(ctx), "ves.DeathLetterEvent") ==> unboxed(actxMessage(ctx), "ves.DeathLetterEvent").Envelope != nil
+//@   modifies gmap(published)
+//@   ensures  typeis(actxMessage(ctx), "ves.DeathLetterEvent") ==> gcount(published, tagof("ves.DeathLetterEvent")) == old(gcount(published, tagof("ves.DeathLetterEvent"))) + 1
+//@   ensures  forall t mathint :: t != tagof("ves.DeathLetterEvent") || !typeis(actxMessage(ctx), "ves.DeathLetterEvent") ==> gcount(published, t) == old(gcount(published, t))
